@@ -389,50 +389,41 @@ theorem grid_exhaustive (n : Nat) (cx : Grid.Ctx) (pre : List GTrial) (h : GridS
     exact (hinv.idx i t g hi hgid).1
   · rw [hinv.stop, remainingG_zero_iff]
 
-/-- **No KeyError, and it stops by itself** — when no enqueued trial is waiting in the queue: the
-sampler never raises; and if no trial raises out of `optimize`, then for every split `ks` the
-number of new trials is `min (total budget) (number of free cells)`, and with enough budget the run
-ends with the stop flag set. -/
+theorem gridSetting_ginv3 {n : Nat} {pre : List GTrial} (h : GridSetting n pre) :
+    GInv3 n (pre.length + remainingG n (visitedIds pre)) (ginit pre) :=
+  ⟨gridSetting_ginv h, rfl, by
+    intro h0
+    have := h.notDone
+    simp only [ginit] at h0
+    omega⟩
+
+/-- **It stops by itself — enqueued trials included.**  If no trial raises out of `optimize`, then
+for every split `ks` the number of trials brought to a finished state is
+`min (total budget) (queued trials + free cells)`: the run first works off the queue
+(`enqueue_trial`; such a trial has no grid id and never sets the stop flag), then the free cells; and
+with enough budget it ends with the stop flag set, an empty queue, and exactly one new trial per
+free cell. -/
 theorem grid_stops_by_itself (n : Nat) (cx : Grid.Ctx) (pre : List GTrial) (h : GridSetting n pre)
-    (hq : ∀ t ∈ pre, t.state ≠ .waiting) (ks : List Nat) :
-    (Grid.session cx n ks (ginit pre)).crashed = false ∧
-    ((∀ i, cx.raises i = false) →
-      (Grid.session cx n ks (ginit pre)).trials.length =
-        pre.length + min ks.sum (remainingG n (visitedIds pre)) ∧
-      (remainingG n (visitedIds pre) ≤ ks.sum → (Grid.session cx n ks (ginit pre)).stop = true)) := by
-  have h2 : GInv2 n (ginit pre) := ⟨gridSetting_ginv h, hq, rfl⟩
-  have hinv := session_ginv2 cx n ks (ginit pre) h2
-  refine ⟨hinv.noCrash, fun hnr => ?_⟩
-  have hcnt := Grid.session_count cx n hnr ks (ginit pre) h2
-  have hl : (ginit pre).trials = pre := rfl
-  rw [hl] at hcnt
-  refine ⟨hcnt, fun hle => ?_⟩
-  -- all free cells were used up: count them through the invariant of every prefix of the run
-  have key : ∀ (ks : List Nat) (st : Grid.St), GInv2 n st → (∀ i, cx.raises i = false) →
-      remainingG n (visitedIds (Grid.session cx n ks st).trials) =
-        remainingG n (visitedIds st.trials) - min ks.sum (remainingG n (visitedIds st.trials)) := by
-    intro ks
-    induction ks with
-    | nil => intro st _ _; simp [Grid.session]
-    | cons k ks ih =>
-      intro st hst hnr
-      rw [Grid.session_cons]
-      simp only [List.sum_cons]
-      cases hs : st.stop with
-      | true =>
-        have h0 := hst.stop.mp hs
-        simp only [if_true]
-        rw [ih st hst hnr, h0]
-        simp
-      | false =>
-        simp only [Bool.false_eq_true, if_false]
-        rw [Grid.optimize_of_not_stop cx n k st hs]
-        obtain ⟨_, h2'⟩ := Grid.optimizeLoop_count cx n hnr k st hst
-        rw [ih _ (optimizeLoop_ginv2 cx n k st hst) hnr, h2']
-        omega
-  have := key ks (ginit pre) h2 hnr
-  rw [hl] at this
-  rw [hinv.stop, this]
+    (hnr : ∀ i, cx.raises i = false) (ks : List Nat) :
+    nDone (Grid.session cx n ks (ginit pre)).trials =
+      nDone pre + min ks.sum (nWaiting pre + remainingG n (visitedIds pre)) ∧
+    (nWaiting pre + remainingG n (visitedIds pre) ≤ ks.sum →
+      (Grid.session cx n ks (ginit pre)).stop = true ∧
+      nWaiting (Grid.session cx n ks (ginit pre)).trials = 0 ∧
+      (Grid.session cx n ks (ginit pre)).trials.length = pre.length + remainingG n (visitedIds pre)) := by
+  have h3 := gridSetting_ginv3 h
+  have hinv := session_ginv3 cx n _ ks (ginit pre) h3
+  obtain ⟨hc1, hc2⟩ := Grid.session_count cx n _ hnr ks (ginit pre) h3
+  have htodo : todo n (ginit pre) = nWaiting pre + remainingG n (visitedIds pre) := rfl
+  have hd : nDone (ginit pre).trials = nDone pre := rfl
+  rw [htodo] at hc1 hc2
+  rw [hd] at hc1
+  refine ⟨hc1, fun hle => ?_⟩
+  have hz : todo n (Grid.session cx n ks (ginit pre)) = 0 := by rw [hc2]; omega
+  simp only [todo] at hz
+  have hr0 : remainingG n (visitedIds (Grid.session cx n ks (ginit pre)).trials) = 0 := by omega
+  refine ⟨hinv.stop.mpr hr0, by omega, ?_⟩
+  have := hinv.lenInv
   omega
 
 /-- a fresh study and a 2×3 grid run in calls of 4 + 1 + 10 trials, trial 2 raising: six cells, six
@@ -456,13 +447,17 @@ example : GridSetting 4 [⟨none, .finished⟩, ⟨none, .waiting⟩] :=
 example : (visitedIds (Grid.session ⟨fun _ => 0, fun _ => false⟩ 3 [10]
       (ginit [⟨some 0, .finished⟩, ⟨some 1, .running⟩])).trials) = [0, 2, 1] := by decide
 
-/-- **Where the grid sampler fails today** (replayed on the real sampler by the harness): an
-enqueued trial (no `grid_id`) that finishes while exactly one cell is free makes `after_trial`
-raise `KeyError('grid_id')` — e.g. a one-cell grid and one enqueued trial: `optimize` dies after
-the enqueued trial, nothing of the grid has been evaluated. -/
-theorem grid_enqueued_keyerror :
+/-- **Enqueued trial and a one-cell grid** (the input on which `after_trial` used to raise
+`KeyError('grid_id')` before the repair f91818c, replayed on the real sampler by the harness): the
+enqueued trial is evaluated, does not stop the study, then the cell is evaluated and the study stops. -/
+theorem grid_enqueued_then_grid :
     let st := Grid.session ⟨fun _ => 0, fun _ => false⟩ 1 [10] (ginit [⟨none, .waiting⟩])
-    st.crashed = true ∧ st.stop = false ∧ visitedIds st.trials = [] := by decide
+    st.stop = true ∧ st.trials = [⟨none, .finished⟩, ⟨some 0, .finished⟩] := by decide
+
+/-- an enqueued trial added between two calls, when exactly one cell is free -/
+example : (Grid.session ⟨fun _ => 0, fun _ => false⟩ 2 [10]
+      (ginit [⟨some 0, .finished⟩, ⟨none, .waiting⟩])).trials =
+    [⟨some 0, .finished⟩, ⟨none, .finished⟩, ⟨some 1, .finished⟩] := by decide
 
 end grid
 
